@@ -38,7 +38,10 @@ impl<T> Clone for Ptr<T> { #[verifier::external_body] fn clone(&self) -> (r: Sel
 /// R5: the tetris data model reduced to the fields the orderer reads; PtrList<T> as Vec<Ptr<T>>
 pub struct Instance { pub cell: Ptr<Cell> }
 pub struct Layout { pub instances: Vec<Ptr<Instance>> }
-pub struct Cell { pub layout: Option<Layout> }
+/// the other views of a cell are opaque here (present so that a change that consults them is expressible — seeded change C19-cellorder-abstract-early-return)
+pub struct Abstract { pub name: String }
+pub struct RawLayoutPtr { pub id: u64 }
+pub struct Cell { pub name: String, pub abs: Option<Abstract>, pub layout: Option<Layout>, pub raw: Option<RawLayoutPtr> }
 pub open spec fn cell_dep_seq(l: Layout) -> Seq<Ptr<Cell>> { Seq::new(l.instances@.len(), |i: int| pointee(l.instances@[i]).cell) }
 pub open spec fn cell_deps(item: Ptr<Cell>) -> Set<Ptr<Cell>> { match pointee(item).layout { Some(l) => cell_dep_seq(l).to_set(), None => Set::empty() } }
 /// R5/R9: `DepOrderer<CellOrder>` as a concrete struct whose `push` carries, as an ASSUMED contract, exactly the contract proved for the
